@@ -41,7 +41,8 @@ def deltas(kind):
         # a rotation step of more than one full turn is a legal increment: [+] must still land in [-pi, pi]
         return [[0.1, -0.05, 0.3], [0.0, 0.0, math.pi], [-0.2, 0.1, -7.5], [1e-3, 1e-3, 10.0]]
     # rotational parts of norm 0.23, 1 (180 deg), 0.87 and 5e-3 (small-angle regime)
-    return [[0.1, -0.05, 0.02, 0.1, -0.2, 0.05], [0.0, 0.0, 0.0, 0.6, 0.0, 0.8], [-0.2, 0.1, 0.0, -0.5, 0.5, 0.5], [1e-3, 0.0, 0.0, 3e-3, -4e-3, 1e-9]]
+    u = 1.0 / 3.0 ** 0.5  # float norm exactly 1.0, sum of squares 1 + 2^-52 (half turn about the diagonal)
+    return [[0.1, -0.05, 0.02, 0.1, -0.2, 0.05], [0.0, 0.0, 0.0, u, u, u], [-0.2, 0.1, 0.0, -0.5, 0.5, 0.5], [1e-3, 0.0, 0.0, 3e-3, -4e-3, 1e-9]]
 
 
 def ops(kind, seed):
